@@ -36,6 +36,26 @@ Definition rstate0 := mkRState 0 "".
 
 Definition callers (mm : gomap (list string)) (f : string) : list string := mget_d [] mm f.
 
+(* the loop over the callers of [f]; [rec] is the recursive call (BuildRCallChain on a caller) *)
+Fixpoint rloop (rec : rstate -> string -> rstate * list ritem) (mm : gomap (list string))
+         (f : string) (cs : list string) (st : rstate) (acc : list ritem) : rstate * list ritem :=
+  match cs with
+  | [] => (st, acc)
+  | child :: rest =>
+    if String.eqb f child then rloop rec mm f rest st acc          (* self call: continue *)
+    else
+      let '(st2, acc2) :=
+        match callers mm child with
+        | [] => (st, acc)
+        | _ =>
+          if String.eqb child (r_last st) then (st, acc)
+          else
+            let '(st', items) := rec (mkRState (r_cnt st) child) child in
+            (st', (acc ++ items)%list)
+        end in
+      rloop rec mm f rest st2 (acc2 ++ [REdge child f])%list
+  end.
+
 Fixpoint rchain (fuel : nat) (mm : gomap (list string)) (st : rstate) (f : string)
   : rstate * list ritem :=
   if cmp_eval loopDepth_cmp (r_cnt st) loopDepth then (st, [RNewline]) else
@@ -45,33 +65,13 @@ Fixpoint rchain (fuel : nat) (mm : gomap (list string)) (st : rstate) (f : strin
     let st1 := mkRState (S (r_cnt st)) (r_last st) in
     match callers mm f with
     | [] => (st1, [RNewline])
-    | cs =>
-      (fix loop (cs : list string) (st : rstate) (acc : list ritem) : rstate * list ritem :=
-         match cs with
-         | [] => (st, acc)
-         | child :: rest =>
-           if String.eqb f child then loop rest st acc          (* self call: continue *)
-           else
-             let '(st2, acc2) :=
-               match callers mm child with
-               | [] => (st, acc)
-               | _ =>
-                 if String.eqb child (r_last st) then (st, acc)
-                 else
-                   let '(st', items) := rchain fuel' mm (mkRState (r_cnt st) child) child in
-                   (st', (acc ++ items)%list)
-               end in
-             loop rest st2 (acc2 ++ [REdge child f])%list
-         end) cs st1 []
+    | cs => rloop (rchain fuel' mm) mm f cs st1 []
     end
   end.
 
-(* escapeStr: strings.ReplaceAll(name, "\"", "\\\"") *)
-Definition escape_str (s : string) : string := replace_all dquote (bslash ++ dquote) s.
-
 Definition render_ritem (i : ritem) : string :=
   match i with
-  | REdge c f => """" ++ escape_str c ++ """ -> """ ++ escape_str f ++ """;" ++ nl
+  | REdge c f => """" ++ escape_quotes c ++ """ -> """ ++ escape_quotes f ++ """;" ++ nl
   | RNewline => nl
   | ROutOfFuel => "<out-of-fuel>"
   end.
